@@ -42,6 +42,9 @@ def impl(line):
             b = mk_buf(t[2]); p = mk_parser('CoAPParser', False, 'sem')
             h = p.parse(b)
             return show_pairs(p.unparse([(f.id, f.value) for f in h.fields]))
+        if stream == 'parse' and op == 'unparseraw':
+            n = int(t[2]); fs = [(unesc(t[3 + 2 * i]), mk_buf(t[4 + 2 * i])) for i in range(n)]
+            return show_pairs(mk_parser('CoAPParser', False, 'sem').unparse(fs))
         if stream == 'compute' and op == 'call':
             from microschc.protocol import ComputeFunctions
             fid = unesc(t[2]); pos = int(t[3]); n = int(t[4])
@@ -254,6 +257,16 @@ def gen(props, tier, rng):
             data, exp, _ = packets.gen_coap(rng, style=style)
             line = f'parse unparse {lbits(data)} # wf'
             EXPECT[line] = exp; yield line
+    if 'C19' in props:
+        # the un-parser on field lists no parse produced: fixed ids, named options in any order, unknown-option ids, ids it
+        # does not know (UnparserError — or UnboundLocalError when no option came before: the `finally` clause runs first)
+        names = ['CoAP:Version', 'CoAP:Token', 'CoAP:Payload Marker', 'CoAP:Option Uri-Path', 'CoAP:Option Uri-Host', 'CoAP:Option Size1',
+                 'CoAP:Option Max-Age', 'CoAPFields.OPTION_UNKNOWN(6)', 'CoAPFields.OPTION_UNKNOWN(300)', 'CoAPFields.OPTION_UNKNOWN(70000)',
+                 'CoAPFields.OPTION_UNKNOWN()', 'CoAP:Option Nonsense', 'UDP:Length', 'x']
+        for _ in range(150 if q else 1500):
+            k = rng.randrange(0, 6)
+            fs = [(rng.choice(names), abuf(''.join(rng.choice('01') for _ in range(8 * rng.choice([0, 0, 1, 2, 13, 14, 269]))))) for _ in range(k)]
+            yield f"parse unparseraw {len(fs)} " + ' '.join(f'{esc(i)} {v}' for i, v in fs)
     if 'C09' in props:
         yield from gen_compute(rng, q)
 
